@@ -311,17 +311,38 @@ class Evaluator(object):
         if k == 'If':
             ctt = self.cond_term(e['cond'], env)
             ct = show(ctt)
+            extra = None
+            if e['cond'].get('k') == 'LetExpr':
+                sv = Evaluator(self.fns, inline_depth=0).eval(e['cond']['init'], dict(env), [], None, [])
+                extra = {'let': True, 'pat': e['cond']['pat'], 'ty': e['cond']['init'].get('ty'), 'subject': sv}
             if e['then'].get('ty') == '!' or self.block_diverges(e['then']):
-                out.append(Guard((e['sp'], 'else', 'if', ct, ctt)))
+                out.append(Guard((e['sp'], 'else', 'if', ct, ctt, extra)))
             elif e.get('else') is not None and (e['else'].get('ty') == '!' or self.block_diverges(e['else'])):
-                out.append(Guard((e['sp'], 'then', 'if', ct, ctt)))
+                out.append(Guard((e['sp'], 'then', 'if', ct, ctt, extra)))
         elif k == 'Match' and e.get('src') == 'Normal':
             live = [i for i, a in enumerate(e['arms']) if not (a['body'].get('ty') == '!' or self.block_diverges(a['body']))]
             if len(live) < len(e['arms']):
                 stt = self.cond_term(e['scrut'], env)
                 st = show(stt)
                 pats = ' | '.join(H.pat_term(e['arms'][i]['pat'], True) for i in live)
-                out.append(Guard((e['sp'], 'arms:' + ','.join(map(str, live)), 'match', st + ' ~ ' + pats, stt)))
+                import canon
+                mty = e['scrut'].get('ty')
+                names = set()
+                for i in live:
+                    w = canon.whole(e['arms'][i]['pat'], mty)
+                    if isinstance(w, set) and names is not None:
+                        names |= w
+                    else:
+                        names = None
+                dead = [i for i in range(len(e['arms'])) if i not in live]
+                minfo = canon.variants_of(mty)
+                if names is None and minfo is not None and all(isinstance(canon.whole(e['arms'][i]['pat'], mty), set) and e['arms'][i].get('guard') is None for i in dead):
+                    # the live arms are what the diverging whole-variant arms leave
+                    names = set(x[0] for x in minfo[1])
+                    for i in dead:
+                        names -= canon.whole(e['arms'][i]['pat'], mty)
+                cpred = canon.render(mty, names) if (names and minfo is not None) else pats
+                out.append(Guard((e['sp'], 'arms:' + ','.join(map(str, live)), 'match', st + ' ~ ' + pats, stt, {'pred': cpred, 'names': names, 'subject': stt})))
         elif k == 'Try':
             out.extend(self.success_guards(H.peel(e['e']), env))
         return out
@@ -533,17 +554,25 @@ class Evaluator(object):
             self.emit(k.lower(), None, node, guards, fn, chain)
             return ('ctl', k.lower())
         if k == 'If':
+            extra = None
+            if node['cond'].get('k') == 'LetExpr':
+                n0 = len(self.events)
+                sv = Evaluator(self.fns, inline_depth=0).eval(node['cond']['init'], dict(env), [], None, [])
+                extra = {'let': True, 'pat': node['cond']['pat'], 'ty': node['cond']['init'].get('ty'), 'subject': sv}
             c = self.eval(node['cond'], env, guards, fn, chain)
+            if extra is not None and node['cond']['init'].get('k') in ('Call', 'MethodCall', 'Try', 'Local', 'Field', 'AddrOf', 'Unary'):
+                # the subject as the full evaluator sees it (inlined helpers, substituted locals)
+                m = re.match(r'^let (.+?) = (.+)$', show(c))
+                if m:
+                    extra['subject_str'] = m.group(2)
             cs = show(c)
-            gt = guards + [Guard((node['sp'], 'then', 'if', cs, c))]
+            gt = guards + [Guard((node['sp'], 'then', 'if', cs, c, extra))]
             # `if let` bindings
             tenv = dict(env)
-            if node['cond'].get('k') == 'LetExpr':
-                pass
             tt = self.eval(node['then'], tenv, gt, fn, chain)
             s = 'if %s {%s}' % (cs, show(tt))
             if node.get('else') is not None:
-                ge = guards + [Guard((node['sp'], 'else', 'if', cs, c))]
+                ge = guards + [Guard((node['sp'], 'else', 'if', cs, c, extra))]
                 et = self.eval(node['else'], dict(env), ge, fn, chain)
                 s += ' else {%s}' % show(et)
                 # value of an if/else with one diverging branch is the other branch
@@ -572,11 +601,27 @@ class Evaluator(object):
             self.emit('match', sc, node, guards, fn, chain)
             parts = []
             live_vals = []
+            import canon
+            mty = node['scrut'].get('ty')
+            earlier = []
+            earlier_preds = []
+            minfo = canon.variants_of(mty)
             for i, a in enumerate(node['arms']):
                 aenv = dict(env)
                 self.bind_pat(a['pat'], self.payload_of(sc, a['pat']), aenv)
                 pt = H.pat_term(a['pat'], True)
-                g = guards + [Guard((node['sp'], 'arm:%d' % i, 'match', scs + ' ~ ' + pt, sc))]
+                cpred, cnames = canon.pattern_pred(a['pat'], mty, earlier)
+                if cpred == '_' and earlier_preds:
+                    cpred = 'not ' + ' | '.join(earlier_preds)
+                if a.get('guard') is None:
+                    w = canon.whole(a['pat'], mty)
+                    if w == 'ALL':
+                        earlier.append(set(x[0] for x in minfo[1]) if minfo is not None else None)
+                    else:
+                        earlier.append(w)
+                    if cpred != '_' and not cpred.startswith('not '):
+                        earlier_preds.append(cpred)
+                g = guards + [Guard((node['sp'], 'arm:%d' % i, 'match', scs + ' ~ ' + pt, sc, {'pred': cpred, 'names': cnames, 'subject': sc}))]
                 if a.get('guard') is not None:
                     gt = self.eval(a['guard'], aenv, g, fn, chain)
                     g = g + [Guard((a['sp'], 'guard', 'armguard', show(gt), gt))]
@@ -669,6 +714,51 @@ class Evaluator(object):
                 if rv is not None and rv[0] != 'ctl':
                     return rv
         return t
+
+
+def guard_strs(g):
+    """Canonical rendering of one structural guard: list of 'if(X)' / 'unless(X)' / 'case(X ~ P)'."""
+    import canon
+    kind = g[2]
+    extra = g[5] if len(g) > 5 else None
+    if kind == 'if':
+        if extra and extra.get('let'):
+            subj = extra.get('subject_str')
+            if subj is None:
+                m = re.match(r'^let (.+?) = (.+)$', g[3])
+                subj = m.group(2) if m else show(extra['subject'])
+            if g[1] == 'then':
+                pred, names = canon.pattern_pred(extra['pat'], extra['ty'])
+            else:
+                pred = canon.complement_pred(extra['pat'], extra['ty'])
+                w = canon.whole(extra['pat'], extra['ty'])
+                info = canon.variants_of(extra['ty'])
+                names = (set(x[0] for x in info[1]) - w) if (info is not None and isinstance(w, set)) else None
+            cc = canon.cmp_conds(extra['subject'], names) if names else None
+            if cc is not None:
+                return ['%s(%s)' % ('if' if p else 'unless', s_) for s_, p in cc]
+            return ['case(%s ~ %s)' % (subj, pred)]
+        out = []
+        for s_, p in canon.cond(g[4], g[1] == 'then') if g[4] is not None else [(g[3], g[1] == 'then')]:
+            if isinstance(p, bool):
+                out.append('%s(%s)' % ('if' if p else 'unless', s_))
+            else:
+                out.append('case(%s ~ %s)' % (s_, p))
+        return out
+    if kind == 'match':
+        if extra:
+            subj = g[3].split(' ~ ')[0] if ' ~ ' in g[3] else show(extra['subject'])
+            cc = canon.cmp_conds(extra['subject'], extra.get('names')) if extra.get('names') else None
+            if cc is not None:
+                return ['%s(%s)' % ('if' if p else 'unless', s_) for s_, p in cc]
+            return ['case(%s ~ %s)' % (subj, extra['pred'])]
+        return ['case(%s)' % g[3]]
+    if kind == 'armguard':
+        out = []
+        for s_, p in canon.cond(g[4], True) if g[4] is not None else [(g[3], True)]:
+            out.append('%s(%s)' % ('if' if p is True else 'unless', s_) if isinstance(p, bool) else 'case(%s ~ %s)' % (s_, p))
+        return out
+    return []
 
 
 def dominates(a, b):
